@@ -76,6 +76,7 @@ type c02Scenario struct {
 	finished  chan struct{}
 	ran       atomic.Int32
 	tookNs    atomic.Int64
+	ctxDoneNs atomic.Int64 // when the gated handler saw ctx.Done, since its start
 }
 
 type c02Env struct {
@@ -226,6 +227,7 @@ func (d *c02Drv) handle(w http.ResponseWriter, r *http.Request) {
 	if sc.npre <= len(sc.steps) {
 		close(sc.preDone)
 		<-r.Context().Done()
+		sc.ctxDoneNs.Store(int64(time.Since(start)))
 		for i := sc.npre; i <= len(sc.steps); i++ {
 			run(i)
 		}
@@ -611,31 +613,21 @@ func (d *c02Drv) runScript(c kit.Case, m kit.M) kit.Verdict {
 		if delay > 0 && tr != "api" {
 			continue
 		}
-		attempts := 1
-		if tr == "api" {
-			attempts = 6 // real time-outs involved: a failure must reproduce 3 times (3 more, one at a time, after a stall)
-		}
 		var o c02Obs
 		var ok bool
 		var why string
-		inconclusive := 0
-		serialized := false
-		for a := 0; a < attempts; a++ {
-			if tr == "api" && a == 3 {
-				if inconclusive < 3 {
-					break // reproduced 3 times, at least once conclusively
-				}
-				// every concurrent attempt was spoilt by a stalled machine: try again one at a time
-				d.slowMu.Lock()
-				serialized = true
-				inconclusive = 0
-			}
-			sc := d.newScenario(d.main)
+		var sc *c02Scenario
+		run := func(a int) {
+			sc = d.newScenario(d.main)
 			sc.steps, sc.term, sc.npre = steps, kit.Str(m["term"]), npre
 			tclass := "long"
 			switch {
+			case !kit.Bool(m["runs"]):
+				tclass = "long" // answered by a guard before the handler: no timer may interfere
+			case tr == "api" && (npre <= n || delay > 0):
+				tclass = "cfg" // Config.Timeout = 2 s of the started server
 			case tr == "api":
-				tclass = "cfg"
+				tclass = "long"
 			case class == "boundary":
 				tclass = "tiny"
 				sc.stepSleep = 2 * c02Tiny / time.Duration(n+2)
@@ -650,45 +642,83 @@ func (d *c02Drv) runScript(c kit.Case, m kit.M) kit.Verdict {
 			}
 			o = d.do(tr, d.main, c02Path(tclass, mb), sc, cl, cancel, kit.Bool(m["runs"]))
 			d.reg.Delete(sc.id)
-			if strings.HasPrefix(o.err, "INFRA") {
-				return kit.Verdict{Case: c.Index, Infra: true, Msg: tr + ": " + o.err}
-			}
 			ok, why = c02Match(exp, o)
-			ran := sc.ran.Load()
-			if ok && (ran > 0) != kit.Bool(m["runs"]) {
+			if ok && (sc.ran.Load() > 0) != kit.Bool(m["runs"]) {
 				ok, why = false, "handler-ran"
 			}
 			v.Steps++
-			if ok {
-				d.rep.Count(tr+"."+class, 1)
-				if class == "boundary" {
-					if o.status == 503 {
-						d.rep.Count("boundary.timeout", 1)
-					} else {
-						d.rep.Count("boundary.handler", 1)
-					}
+		}
+		inconclusive := 0
+		serialized := false
+		infra := ""
+		for a := 0; a < 6; a++ {
+			if a == 3 {
+				if inconclusive < 3 {
+					break // reproduced 3 times, at least once conclusively
 				}
+				// every concurrent attempt was spoilt by a stalled machine: try again one at a time
+				d.slowMu.Lock()
+				serialized = true
+				inconclusive = 0
+			}
+			run(a)
+			if strings.HasPrefix(o.err, "INFRA") {
+				infra = tr + ": " + o.err
+				break
+			}
+			if ok {
 				break
 			}
 			if why == "hung" {
-				break // 20 s of silence is not a stalled machine; do not wait again
-			}
-			if tr == "api" {
-				// only outcomes that cannot be blamed on a stalled machine count: the handler must have
-				// ended well inside the time-out (in-time cases), the client must have been answered
-				// (or cut off) close to the time-out (deadline cases)
-				T := time.Duration(c02ApiMs) * time.Millisecond
-				took := time.Duration(sc.tookNs.Load())
-				switch {
-				case npre == n+1 && took > T-60*time.Millisecond:
-					inconclusive++
-				case npre <= n && o.elapsed > T+150*time.Millisecond:
-					inconclusive++
+				// 20 s of silence. Confirm it alone, next to a control request that needs nothing from the
+				// machine but to be scheduled: a hang that reproduces while the control is answered
+				// promptly is the chain's, anything else is the machine's.
+				if !serialized {
+					d.slowMu.Lock()
+					serialized = true
 				}
+				ctl := d.control(tr, mb)
+				run(a + 100)
+				switch {
+				case ok:
+					d.rep.Count("hung_not_reproduced", 1)
+				case why == "hung" && ctl >= 0 && ctl < 2*time.Second:
+					// confirmed
+				case why == "hung":
+					infra = fmt.Sprintf("%s: no response within %v, but the machine is stalled (control request: %v)", tr, c02Hang, ctl)
+				}
+				break
+			}
+			if tr != "api" {
+				break
+			}
+			// real time-outs involved: only outcomes that cannot be blamed on a stalled machine count. The
+			// handler must have ended well inside the time-out (in-time cases) / must have seen the
+			// deadline close to the time-out (deadline cases).
+			T := time.Duration(c02ApiMs) * time.Millisecond
+			took, sawDone := time.Duration(sc.tookNs.Load()), time.Duration(sc.ctxDoneNs.Load())
+			switch {
+			case npre == n+1 && took > T-60*time.Millisecond:
+				inconclusive++
+			case npre <= n && kit.Bool(m["runs"]) && (sawDone == 0 || sawDone > T+100*time.Millisecond):
+				inconclusive++
 			}
 		}
 		if serialized {
 			d.slowMu.Unlock()
+		}
+		if infra != "" {
+			return kit.Verdict{Case: c.Index, Infra: true, Msg: infra}
+		}
+		if ok {
+			d.rep.Count(tr+"."+class, 1)
+			if class == "boundary" {
+				if o.status == 503 {
+					d.rep.Count("boundary.timeout", 1)
+				} else {
+					d.rep.Count("boundary.handler", 1)
+				}
+			}
 		}
 		if !ok {
 			if serialized && inconclusive == 3 {
@@ -705,6 +735,18 @@ func (d *c02Drv) runScript(c kit.Case, m kit.M) kit.Verdict {
 		}
 	}
 	return v
+}
+
+// control serves the simplest in-time request (empty script, never-reached time-out) on a transport and
+// returns how long it took, -1 if it was not answered with its 200.
+func (d *c02Drv) control(tr string, mb int64) time.Duration {
+	sc := d.newScenario(d.main)
+	defer d.reg.Delete(sc.id)
+	o := d.do(tr, d.main, c02Path("long", mb), sc, 0, false, true)
+	if o.err != "" || o.status != 200 {
+		return -1
+	}
+	return o.elapsed
 }
 
 // ---------------------------------------------------------------- stress: one scenario, many concurrent requests
@@ -732,7 +774,14 @@ func (d *c02Drv) runStress(c kit.Case, m kit.M) kit.Verdict {
 				sc.steps, sc.term, sc.npre = steps, kit.Str(m["term"]), len(steps)+1
 				o := d.do("rec", d.main, c02Path("long", mb), sc, 0, false, true)
 				d.reg.Delete(sc.id)
-				if ok, why := c02Match(exp, o); !ok {
+				if ok, why := c02Match(exp, o); !ok && why == "hung" {
+					bad.Add(1)
+					mu.Lock()
+					if v.OK {
+						v = kit.Verdict{Case: c.Index, Infra: true, Msg: fmt.Sprintf("stress: %.80s", o.err)}
+					}
+					mu.Unlock()
+				} else if !ok {
 					bad.Add(1)
 					mu.Lock()
 					if v.OK {
@@ -810,7 +859,7 @@ func (d *c02Drv) runConns(c kit.Case, m kit.M) kit.Verdict {
 					}
 				case o := <-p.res:
 					d.reg.Delete(sc.id)
-					if strings.HasPrefix(o.err, "INFRA") {
+					if strings.HasPrefix(o.err, "INFRA") || strings.HasPrefix(o.err, "HUNG") { // a silent MaxConns history is left to the script scenarios
 						return kit.Verdict{Case: c.Index, Infra: true, Msg: o.err}
 					}
 					if kit.Bool(op["admitted"]) {
@@ -830,7 +879,7 @@ func (d *c02Drv) runConns(c kit.Case, m kit.M) kit.Verdict {
 				if !done {
 					return kit.Verdict{Case: c.Index, Infra: true, Msg: "release: no response"}
 				}
-				if strings.HasPrefix(o.err, "INFRA") {
+				if strings.HasPrefix(o.err, "INFRA") || strings.HasPrefix(o.err, "HUNG") { // a silent MaxConns history is left to the script scenarios
 					return kit.Verdict{Case: c.Index, Infra: true, Msg: o.err}
 				}
 				if ok, why := c02Match(exp, o); !ok {
